@@ -12,7 +12,10 @@
 (* outside what it addresses, and its reply is a function of what it addresses. *)
 (*                                                                              *)
 (* Types: 1 kv, 2 hash, 3 list, 4 set, 5 zset (each type has its own keyspace:  *)
-(* doc/user-guide.md).  Tables, keys, sub-keys are positions of ordered pools   *)
+(* doc/user-guide.md), 6 bitmap (SETBITV2 / BITCLEAR; value = the offsets that  *)
+(* are on), 7 JSON document (JSON.SET / JSON.DEL; value = the stored number),   *)
+(* 8 HyperLogLog (PFADD / DEL; value = the elements added; it lives in the kv   *)
+(* keyspace, so the driver gives HLL keys names no kv tuple uses).  Tables, keys, sub-keys are positions of ordered pools   *)
 (* that the Go driver instantiates with adversarial byte strings.  Values and   *)
 (* scores are small naturals.  A value is a sequence of pairs:                  *)
 (*   kv    <<>> | << <<v, 0>> >>                                                *)
@@ -30,7 +33,7 @@ CONSTANTS NT,       \* tables
           NK,       \* keys per table
           Mut       \* "none" or the name of a deliberately broken variant (spec mutants)
 
-NTy  == 5
+NTy  == 8
 NTup == NTy * NT * NK
 Tups == 1..NTup
 
@@ -60,6 +63,9 @@ OpsOf(ty) == CASE ty = 1 -> {"set", "del", "expire"}
                [] ty = 3 -> {"rpush", "lpop", "clear", "expire"}
                [] ty = 4 -> {"sadd", "srem", "clear", "expire"}
                [] ty = 5 -> {"zadd", "zrem", "zrembyscore", "clear", "expire"}
+               [] ty = 6 -> {"bitset", "clear"}
+               [] ty = 7 -> {"jset", "jdel"}
+               [] ty = 8 -> {"pfadd", "del"}
 
 \* effect of a single-tuple command on the value v of the addressed tuple: <<new value, reply>>
 Effect(v, op, a, b) ==
@@ -78,9 +84,16 @@ Effect(v, op, a, b) ==
          << SelectSeq(v, LAMBDA e : ~(e[2] >= a /\ e[2] <= b)),
             Len(SelectSeq(v, LAMBDA e : e[2] >= a /\ e[2] <= b)) >>
     [] op = "expire" -> << v, B2N(v # <<>>) >>
+    [] op = "bitset" -> << Put(v, a, 0), B2N(Has(v, a)) >>      \* SETBIT offset 1: answers the old bit
+    [] op = "jset"   -> << << <<a, 0>> >>, 0 >>                 \* JSON.SET key . number
+    [] op = "jdel"   -> << <<>>, B2N(v # <<>>) >>               \* JSON.DEL key
+    [] op = "pfadd"  -> << Put(v, a, 0), B2N(~Has(v, a)) >>     \* PFADD one element (exact for tiny sets)
 
 \* what a full enumeration of a tuple shows (sorted sets are listed by (score, member))
-Dump(s, u) == IF TyOf(u) = 5 THEN ByScore(s[u]) ELSE s[u]
+\* HyperLogLog keys cannot be enumerated: what is read back is PFCOUNT
+Dump(s, u) == IF TyOf(u) = 5 THEN ByScore(s[u])
+              ELSE IF TyOf(u) = 8 THEN (IF s[u] = <<>> THEN <<>> ELSE << <<Len(s[u]), 0>> >>)
+              ELSE s[u]
 
 \* the keys of one (type, table) key space, in key order
 KeysOf(s, ty, t) == SelectSeq([k \in 1..NK |-> k], LAMBDA k : s[Tup(ty, t, k)] # <<>>)
@@ -153,5 +166,5 @@ TypeOK == /\ DOMAIN st = Tups
 \* the values keep their canonical shape (sorted, no duplicate sub-key)
 Canonical ==
   \A u \in Tups :
-    TyOf(u) \in {2, 4, 5} => \A i \in 1..(Len(st[u]) - 1) : st[u][i][1] < st[u][i + 1][1]
+    TyOf(u) \in {2, 4, 5, 6, 8} => \A i \in 1..(Len(st[u]) - 1) : st[u][i][1] < st[u][i + 1][1]
 =============================================================================
